@@ -258,6 +258,18 @@ def check(chk, repo, tier):
                "element-wise", EF, fn.lineno, sample={"list_keys": now}
                if now else None)
 
+    # ---- (N) numbers are recognised in every class of sympy's tower ----------------
+    for name in frozen:
+        fn = mod.functions[name]
+        bad = tower_unaware_tests(fn)
+        chk.ob("C08.number-arms-recognise-every-class", name, not bad,
+               (f"`{bad[0][1]}` picks the number overload by python class: a "
+                "number written in the program is a sympy Integer (0, 1, -1, "
+                "1/2 are singletons of their own), so the arm is skipped and "
+                "neither the scalar nor any item of a list is handled")
+               if bad else "", EF, bad[0][0].lineno if bad else fn.lineno,
+               witness="⟨`ab`|`c`⟩ `x` 5 ø↲")
+
     # ---- (L) eager / lazy symmetry ----------------------------------------------------
     for fn in mod.functions.values():
         sym_check(chk, fn, fn.name in info, EF)
